@@ -255,7 +255,7 @@ func lastLines(s string, n int) string {
 // key is a suffix of the other.
 var AdvKeys = []string{"a.b", "a/b", "%", "%2E", "%2F", "a%2Eb", "fork0", "fork_R", "u0123456789", "chnk1",
 	"x y", " lead", "ünï", "日本", "R", "L_R", "2", "1_2", "z%", "x.y_z%", "k", "K", "a.b.c", "..", "-", "_", "0", "00", "01",
-	"complete", "split_complete", "a.complete", "very_long_key_abcdefghijklmnopqrstuvwxyz_0123456789_abcdefghijklmnopqrstuvwxyz"}
+	"complete", "split_complete", "a.complete", "chr1:100-200", "k=v&w", "x+y@z", "p;q,r", "(x)!*'", "very_long_key_abcdefghijklmnopqrstuvwxyz_0123456789_abcdefghijklmnopqrstuvwxyz"}
 
 func c11Case(c *Ctx) {
 	if c.Plan.Draw(10) == 0 {
